@@ -640,6 +640,17 @@ def call (L : Lib) (name : String) (args : List Arg) : Out Val :=
   | "max", [.v s] => andThen s.iter fun xs => L.extremum ncmp .gt xs
   | "min", [.v s, .f f] => andThen s.iter fun xs => L.extremum f.cmp0 .lt xs
   | "max", [.v s, .f f] => andThen s.iter fun xs => L.extremum f.cmp0 .gt xs
+  -- `min(a, b, …[, f])`: two or more values are compared themselves (sequences included)
+  | "min", .v a :: .v b :: rest =>
+    (match splitFn (.v a :: .v b :: rest) with
+     | some (vals, none) => L.extremum ncmp .lt vals
+     | some (vals, some f) => L.extremum f.cmp0 .lt vals
+     | none => .throw)
+  | "max", .v a :: .v b :: rest =>
+    (match splitFn (.v a :: .v b :: rest) with
+     | some (vals, none) => L.extremum ncmp .gt vals
+     | some (vals, some f) => L.extremum f.cmp0 .gt vals
+     | none => .throw)
   | "fold", [.v s, .f f] => andThen s.iter fun xs => L.fold1 f.call2 xs
   | "fold", [.v s, .f f, .v z] => andThen s.iter fun xs => L.foldFrom f.call2 z xs
   | "scan", [.v s, .f f] => andThen s.iter fun xs => (L.scan1 f.call2 xs).map .list
